@@ -1,1 +1,339 @@
-def main : IO Unit := IO.println "driver C03: not built yet"
+import VncModel.Basic.Proto
+import VncModel.Wire.Session
+/-!
+Line-protocol driver for C03 (Wire).  Input: the op script of harness/c03.c interleaved with the
+harness' observations (prefixed `@`):
+
+    <op …>            the scripted op (client message, application action, configuration)
+    @scr W H bpp <pf-hex16> <name-hex>     real screen parameters (the truth ServerInit must report)
+    @hook id dx dy U n {x1 y1 x2 y2} C m {x1 y1 x2 y2}
+    @tx id <hex>      bytes the server wrote to connection id during the op
+    @st id closed
+    @.                end of the op's observations
+
+Output: `rx …` summaries of every parsed message and alarm lines
+    !PARSE  …   the strict parser rejects the stream (oracle: not well-formed)
+    !ORACLE …   rectangle outside announced size / unadvertised encoding or message / ServerInit not real
+    !EXACT  …   the planning model predicted different rectangle headers (model drift)
+-/
+open VncModel VncModel.Wire VncModel.Proto VncModel.Gen.C03
+
+structure DState where
+  scr : Screen := {}
+  conns : List Conn := []
+  opNo : Nat := 0            -- index of the current op line (0-based, observation lines not counted)
+  deriving Repr
+
+def nat? (s : String) : Option Nat := s.toNat?
+
+def natD (s : String) : Nat := s.toNat?.getD 0
+
+def intD (s : String) : Int := (parseInt? s).getD 0
+
+def getConn (s : DState) (id : Nat) : Option Conn := s.conns.find? (·.id == id)
+
+def putConn (s : DState) (c : Conn) : DState :=
+  { s with conns := s.conns.map fun d => if d.id == c.id then c else d }
+
+def encName (e : Nat) : String :=
+  if e = rfbEncodingRaw then "raw" else if e = rfbEncodingCopyRect then "copy"
+  else if e = rfbEncodingRRE then "rre" else if e = rfbEncodingCoRRE then "corre"
+  else if e = rfbEncodingHextile then "hextile" else if e = rfbEncodingZlib then "zlib"
+  else if e = rfbEncodingTight then "tight" else if e = rfbEncodingTightPng then "tightpng"
+  else if e = rfbEncodingUltra then "ultra" else if e = rfbEncodingZRLE then "zrle"
+  else if e = rfbEncodingZYWRLE then "zywrle" else if e = rfbEncodingXCursor then "xcursor"
+  else if e = rfbEncodingRichCursor then "richcursor" else if e = rfbEncodingPointerPos then "pointerpos"
+  else if e = rfbEncodingLastRect then "lastrect" else if e = rfbEncodingNewFBSize then "newfbsize"
+  else if e = rfbEncodingExtDesktopSize then "extdesktopsize"
+  else if e = rfbEncodingKeyboardLedState then "led" else if e = rfbEncodingSupportedMessages then "supmsgs"
+  else if e = rfbEncodingSupportedEncodings then "supencs" else if e = rfbEncodingServerIdentity then "identity"
+  else toString e
+
+def showRect (r : Rect) : String :=
+  s!"{encName r.hdr.enc}@{r.hdr.x},{r.hdr.y},{r.hdr.w},{r.hdr.h}+{r.payload.length}"
+
+def showMsg : ServerMsg → String
+  | .fbu _ n rs =>
+    let shown := (rs.take 40).map showRect
+    s!"FBU n={n} rects={rs.length} [{" ".intercalate shown}{if rs.length > 40 then " …" else ""}]"
+  | .colourMap _ f n _ => s!"COLOURMAP first={f} n={n}"
+  | .bell => "BELL"
+  | .cutText _ len d => s!"CUTTEXT len={len} data={d.length}"
+  | .resizeFB _ w h => s!"RESIZEFB {w}x{h}"
+  | .palmResize _ dw dh bw bh _ => s!"PALMRESIZE desktop={dw}x{dh} buffer={bw}x{bh}"
+  | .xvp _ v c => s!"XVP ver={v} code={c}"
+  | .textChat _ len d => s!"TEXTCHAT len={len} data={d.length}"
+
+def showFault : MsgFault → String
+  | .rect i (.unadvertised e) => s!"rect {i}: encoding {encName e} was never advertised by the client"
+  | .rect i (.outside x y w h) => s!"rect {i}: {x},{y},{w},{h} outside the announced framebuffer"
+  | .rect i (.copySrcOutside sx sy w h) => s!"rect {i}: CopyRect source {sx},{sy},{w},{h} outside the announced framebuffer"
+  | .msgType t => s!"message type {t} (or its extended form) was never advertised by the client"
+
+/-- canonical form of the 16 pixel-format bytes: booleans normalised, padding ignored -/
+def canonPf (pf : Bytes) : Bytes :=
+  (pf.take 13).zipIdx.map fun (b, i) => if i == 2 || i == 3 then (if b == 0 then 0 else 1) else b
+
+/-- consume expected handshake items from the front of the connection's buffer -/
+def consumeHs (s : Screen) (c : Conn) (fuel : Nat) : Conn × List String :=
+  match fuel with
+  | 0 => (c, [])
+  | fuel + 1 =>
+  match c.expectHs with
+  | [] => (c, [])
+  | .lit what bs :: rest =>
+    if c.buf.length < bs.length then (c, [])
+    else if c.buf.take bs.length = bs then
+      let (c', out) := consumeHs s { c with buf := c.buf.drop bs.length, expectHs := rest } fuel
+      (c', s!"rx {c.id} HS {what} {hex bs}" :: out)
+    else
+      ({ c with expectHs := [], phase := .closed },
+       [s!"!PARSE {c.id} handshake: expected {what} {hex bs}, got {hex (c.buf.take bs.length)}"])
+  | .any what n :: rest =>
+    if c.buf.length < n then (c, [])
+    else
+      let (c', out) := consumeHs s { c with buf := c.buf.drop n, expectHs := rest } fuel
+      (c', s!"rx {c.id} HS {what} ({n} bytes)" :: out)
+  | .serverInit :: rest =>
+    -- structural parse first (lengths), then comparison with the real parameters
+    match takeN sz_rfbServerInitMsg c.buf with
+    | none => (c, [])
+    | some (fixed, r1) =>
+      match rd32 (fixed.drop 20) with
+      | none => (c, [])
+      | some (nameLen, _) =>
+        match takeN nameLen r1 with
+        | none => (c, [])
+        | some (name, r2) =>
+          let w := (rd16 fixed).map (·.1) |>.getD 0
+          let h := (rd16 (fixed.drop 2)).map (·.1) |>.getD 0
+          let pf := (fixed.drop 4).take 16
+          let real := w = s.w ∧ h = s.h ∧ canonPf pf = canonPf s.pf ∧ name = s.name.take 127
+          let c1 := { c with buf := r2, expectHs := rest, annW := w, annH := h }
+          let (c', out) := consumeHs s c1 fuel
+          let line := s!"rx {c.id} HS ServerInit {w}x{h} pf={hex pf} name={hex name}"
+          if real then (c', line :: out)
+          else (c', line :: s!"!ORACLE {c.id} ServerInit does not report the real screen: real {s.w}x{s.h} pf={hex s.pf} name={hex (s.name.take 127)}" :: out)
+
+/-- handle the messages of the normal phase that sit in the connection's buffer -/
+def consumeNormal (c : Conn) : Conn × List String := Id.run do
+  if c.buf.isEmpty then return (c, [])
+  let (ms, err) := match parseAll c.pctx c.buf with
+    | .ok ms => (ms, none)
+    | .error ms off => (ms, some off)
+  let mut c := c
+  let mut out : List String := []
+  for m in ms do
+    out := out ++ [s!"rx {c.id} {showMsg m}"]
+    for f in msgFaults c.octx m do
+      out := out ++ [s!"!ORACLE {c.id} {showFault f} (announced {c.annW}x{c.annH})"]
+    match m with
+    | .fbu _ n rs =>
+      let sizeOnly : Bool := match rs with
+        | [r] => r.hdr.enc == rfbEncodingNewFBSize || r.hdr.enc == rfbEncodingExtDesktopSize
+        | _ => false
+      if sizeOnly then
+        match rs with
+        | [r] => c := { c with annW := r.hdr.w, annH := r.hdr.h }
+        | _ => pure ()
+      else
+        match c.preds with
+        | [] => out := out ++ [s!"!EXACT {c.id} FramebufferUpdate without a planned update"]
+        | p :: ps =>
+          c := { c with preds := ps }
+          match checkPred p n rs with
+          | none => pure ()
+          | some e => out := out ++ [s!"!EXACT {c.id} {e}"]
+    | .resizeFB _ w h => c := { c with annW := w, annH := h }
+    | .palmResize _ _ _ bw bh _ => c := { c with annW := bw, annH := bh }
+    | _ => pure ()
+  match err with
+  | none => c := { c with buf := [] }
+  | some off =>
+    out := out ++ [s!"!PARSE {c.id} not a well-formed server message at offset {off} of {c.buf.length}: {hex ((c.buf.drop off).take 24)}"]
+    c := { c with buf := [], phase := .closed }
+  return (c, out)
+
+def consume (s : Screen) (c : Conn) : Conn × List String :=
+  let (c1, o1) := consumeHs s c (c.expectHs.length + 1)
+  if !c1.expectHs.isEmpty then (c1, o1)
+  else if c1.phase == .normal then
+    let (c2, o2) := consumeNormal c1
+    (c2, o1 ++ o2)
+  else if c1.phase == .closed then ({ c1 with buf := [] }, o1)
+  else if c1.buf.isEmpty then (c1, o1)
+  else ({ c1 with buf := [], phase := .closed },
+        o1 ++ [s!"!PARSE {c1.id} unexpected bytes during the handshake: {hex (c1.buf.take 24)}"])
+
+partial def geos : List String → Nat → List Geo × List String
+  | toks, 0 => ([], toks)
+  | a :: b :: c :: d :: rest, n + 1 =>
+    let (gs, r) := geos rest n
+    (⟨natD a, natD b, natD c - natD a, natD d - natD b⟩ :: gs, r)
+  | toks, _ => ([], toks)
+
+def parseHook (toks : List String) : Option (Nat × HookObs) :=
+  match toks with
+  | id :: dx :: dy :: "U" :: n :: rest =>
+    let (us, r1) := geos rest (natD n)
+    match r1 with
+    | "C" :: m :: rest2 =>
+      let (cs, _) := geos rest2 (natD m)
+      some (natD id, ⟨intD dx, intD dy, us, cs⟩)
+    | _ => none
+  | _ => none
+
+def withConn (s : DState) (idTok : String) (f : Conn → Conn × List String) : DState × List String :=
+  match getConn s (natD idTok) with
+  | none => (s, [])
+  | some c => let (c', out) := f c; (putConn s c', out)
+
+/-- only connections in the normal phase react to normal-phase ops -/
+def withNormal (s : DState) (idTok : String) (f : Conn → Conn) : DState × List String :=
+  withConn s idTok fun c => if c.phase == .normal then (f c, []) else (c, [])
+
+def endOfOp (s : DState) : DState × List String := Id.run do
+  let mut out : List String := []
+  let mut cs : List Conn := []
+  for c in s.conns do
+    let mut c := c
+    if c.phase != .closed then
+      if !c.buf.isEmpty then
+        out := out ++ [s!"!PARSE {c.id} incomplete message at end of op: {hex (c.buf.take 24)} ({c.buf.length} bytes)"]
+        c := { c with buf := [] }
+      match c.expectHs with
+      | [] => pure ()
+      | i :: _ =>
+        out := out ++ [s!"!PARSE {c.id} handshake: server did not send {repr i}"]
+        c := { c with expectHs := [] }
+      if !c.preds.isEmpty then
+        out := out ++ [s!"!EXACT {c.id} {c.preds.length} planned FramebufferUpdate(s) never appeared on the wire"]
+        c := { c with preds := [] }
+    cs := cs ++ [c]
+  return ({ s with conns := cs }, out)
+
+def dstep (s : DState) (toks : List String) : DState × List String :=
+  match toks with
+  -- ---------------------------------------------------------------- observations
+  | ["@scr", w, h, bpp, pf, name] =>
+    -- rfbNewFramebuffer: `if (screen->cursorX >= width) screen->cursorX = width - 1;`
+    let cx : Int := if s.scr.cursorX ≥ (natD w : Int) then (natD w : Int) - 1 else s.scr.cursorX
+    let cy : Int := if s.scr.cursorY ≥ (natD h : Int) then (natD h : Int) - 1 else s.scr.cursorY
+    ({ s with scr := { s.scr with w := natD w, h := natD h, sbpp := natD bpp, cursorX := cx, cursorY := cy,
+                                  pf := (unhex? pf).getD [], name := (unhex? name).getD [] } }, [])
+  | "@hook" :: rest =>
+    match parseHook rest with
+    | none => (s, ["!EXACT ? unreadable hook line"])
+    | some (id, o) =>
+      match getConn s id with
+      | none => (s, [])
+      | some c =>
+        let (c', p) := planUpdate s.scr c o
+        let enc := c.caps.preferred.getD rfbEncodingRaw
+        let splitting := enc = rfbEncodingCoRRE ∨ enc = rfbEncodingUltra ∨ enc = rfbEncodingZlib ∨
+                         enc = rfbEncodingTight ∨ enc = rfbEncodingTightPng
+        let warn := if s.scr.maxRects > 0 ∧ ¬ splitting ∧ o.upd.length > s.scr.maxRects then
+            [s!"!EXACT {id} update region has {o.upd.length} rectangles, maxRectsPerUpdate is {s.scr.maxRects}"] else []
+        (putConn s { c' with preds := c'.preds ++ [p] }, warn)
+  | ["@tx", id, hx] =>
+    match unhex? hx with
+    | none => (s, ["!PARSE ? unreadable tx line"])
+    | some bs =>
+      withConn s id fun c => consume s.scr { c with buf := c.buf ++ bs }
+  | ["@st", id, "closed"] => withConn s id fun c => ({ c with phase := .closed, preds := [], expectHs := [] }, [])
+  | ["@."] => endOfOp s
+  -- ---------------------------------------------------------------- configuration
+  | ["screen", _, _, _] => (s, [])
+  | ["opt", k, v] =>
+    let sc := s.scr
+    let b := natD v != 0
+    let sc := if k = "maxrects" then { sc with maxRects := natD v }
+      else if k = "xvp" then { sc with cfg := { sc.cfg with xvpHook := b } }
+      else if k = "utf8" then { sc with cfg := { sc.cfg with utf8Hook := b } }
+      else if k = "ledhook" then { sc with cfg := { sc.cfg with ledHook := b } }
+      else if k = "norichx" then { sc with cfg := { sc.cfg with noRichToX := b } }
+      else if k = "passwd" then { sc with passwd := b }
+      else if k = "protominor" then
+        (if natD v > 2 ∧ natD v < 9 then { sc with protoMinor := natD v } else sc)
+      else sc
+    ({ s with scr := sc }, [])
+  -- ---------------------------------------------------------------- handshake
+  | ["conn", id, minor] =>
+    let m := natD minor % 1000
+    let (items, ph) := onConnect s.scr m
+    let c : Conn := { id := natD id, minor := m, phase := ph, expectHs := items, bpp := s.scr.sbpp }
+    ({ s with conns := s.conns ++ [c] }, [])
+  | ["sectype", id, t] =>
+    withConn s id fun c =>
+      if c.phase != .secType then (c, []) else
+      let (items, ph) := onSecType s.scr c (natD t % 256)
+      ({ c with expectHs := c.expectHs ++ items, phase := ph }, [])
+  | ["auth", id, how] =>
+    withConn s id fun c =>
+      if c.phase != .auth then (c, []) else
+      let (items, ph) := onAuth c (how == "good")
+      ({ c with expectHs := c.expectHs ++ items, phase := ph }, [])
+  | ["cinit", id, _] =>
+    withConn s id fun c =>
+      if c.phase != .init then (c, []) else
+      ({ c with expectHs := c.expectHs ++ [.serverInit], phase := .normal }, [])
+  -- ---------------------------------------------------------------- client messages
+  | ["setpf", id, bpp, depth, _, _, rmax, gmax, bmax, _, _, _] =>
+    withNormal s id fun c =>
+      { c with bpp := natD bpp / 8, depth := natD depth, rmax := natD rmax, gmax := natD gmax,
+               bmax := natD bmax, ready := true }
+  | "setenc" :: id :: encs =>
+    withNormal s id fun c =>
+      let es := encs.map natD
+      let (caps, _) := setEncodings s.scr.cfg c.caps es
+      { c with caps := caps, hist := c.hist ++ es }
+  | ["fbur", id, _, _, _, _, _] => withNormal s id fun c => { c with ready := true }
+  | ["ptr", id, mask, x, y] =>
+    match getConn s (natD id) with
+    | none => (s, [])
+    | some c =>
+      if c.phase != .normal then (s, []) else
+      let sc := s.scr
+      if sc.pointerClient.isSome ∧ sc.pointerClient ≠ some c.id then (s, []) else
+      let sc := { sc with pointerClient := if natD mask % 256 = 0 then none else some c.id }
+      let (vw, vh) := c.viewSize sc
+      let px : Int := if c.scaled.isSome then scaleInt vw sc.w (natD x) else natD x
+      let py : Int := if c.scaled.isSome then scaleInt vh sc.h (natD y) else natD y
+      if px = sc.cursorX ∧ py = sc.cursorY then ({ s with scr := sc }, []) else
+      let sc := { sc with cursorX := px, cursorY := py }
+      let conns := s.conns.map fun d =>
+        if d.id == c.id then
+          (if d.caps.cursorPos then { d with caps := { d.caps with cursorWasMoved := false } } else d)
+        else if d.phase != .closed ∧ d.caps.cursorPos then { d with caps := { d.caps with cursorWasMoved := true } }
+        else d
+      ({ scr := sc, conns := conns }, [])
+  | [op, id, n] =>
+    if op = "setscale" ∨ op = "palmscale" then
+      withNormal s id fun c =>
+        let k := natD n % 256
+        if k = 0 then { c with phase := .closed } else
+        let tw := s.scr.w / k
+        let th := s.scr.h / k
+        let sc := if tw = s.scr.w ∧ th = s.scr.h then none else some (tw, th)
+        { c with scaled := sc, usedSetScale := true, palm := c.palm || op = "palmscale" }
+    else if op = "resize" then (s, [])
+    else (s, [])
+  | ["xvpc", id, _, _] => withNormal s id fun c => { c with usedXvp := true }
+  -- ---------------------------------------------------------------- application actions
+  | ["cursor", w, h, xh, yh, _, _] =>
+    ({ scr := { s.scr with curW := natD w, curH := natD h, curXhot := natD xh, curYhot := natD yh },
+       conns := s.conns.map fun c => { c with caps := { c.caps with cursorWasChanged := true } } }, [])
+  | ["led", v] => ({ s with scr := { s.scr with led := intD v } }, [])
+  | ["close", id] => withConn s id fun c => ({ c with phase := .closed, preds := [], expectHs := [], buf := [] }, [])
+  | _ => (s, [])
+
+/-- alarm lines carry the index of the op during which they were raised -/
+def dstepN (s : DState) (toks : List String) : DState × List String :=
+  let isObs := match toks with
+    | t :: _ => t.startsWith "@"
+    | [] => true
+  let s1 := if isObs then s else { s with opNo := s.opNo + 1 }
+  let (s2, out) := dstep s1 toks
+  (s2, out.map fun l => if l.startsWith "!" then l ++ s!" [op {s1.opNo - 1}]" else l)
+
+def main : IO Unit := runDriver ({} : DState) dstepN
